@@ -133,14 +133,14 @@ def call(obj_or_cls, name, payload, opt):
     PASSED_OPTIONS.clear()
     if "serialization_options" in kw:
         PASSED_OPTIONS.append((kw["serialization_options"], dict(kw["serialization_options"])))
-    f = getattr(obj_or_cls, name)
+    f = method(obj_or_cls, name)
     args = [] if payload is None else [payload]
     if opt in POSITIONAL and "serialization_options" in kw:
         so = kw["serialization_options"]
         if name in ("as_dict", "to_yaml", "from_yaml"):
             return f(*args, None, so)            # (mashumaro_dialect, serialization_options)
-        if name in ("to_json",):
-            return f(*args, indent=False, serialization_options=so)   # keyword-only in the API
+        if name in ("to_json", "to_json_indented"):
+            return f(*args, indent=False, serialization_options=so)   # keyword-only in the API (the indented variant overrides indent)
         if name in ("as_obj",):
             return f(*args, serialization_options=so)                 # keyword-only in the API
         return f(*args, so)                      # to_msgpck(opts), from_json(value, opts), from_msgpck(value, opts)
@@ -180,14 +180,21 @@ def encode(fmt, d):
 def decode(fmt, payload):
     if fmt == "dict":
         return payload
-    if fmt == "json":
+    if fmt in ("json", "json-indented"):
         return orjson.loads(payload)
     if fmt == "msgpck":
         return msgpack.unpackb(payload, raw=False)
     return yaml.safe_load(payload)
 
 
-SER = {"dict": "as_dict", "json": "to_json", "msgpck": "to_msgpck", "yaml": "to_yaml"}
+SER = {"dict": "as_dict", "json": "to_json", "msgpck": "to_msgpck", "yaml": "to_yaml", "json-indented": "to_json_indented"}
+
+
+def method(obj, name):
+    """Bound entry point; 'to_json_indented' is to_json(indent=True) - the other branch of the JSON wrapper."""
+    if name == "to_json_indented":
+        return lambda *a, **k: obj.to_json(*a, **dict({kk: vv for kk, vv in k.items() if kk != "indent"}, indent=True))
+    return getattr(obj, name)
 DES = {"dict": "as_obj", "json": "from_json", "msgpck": "from_msgpck", "yaml": "from_yaml"}
 
 
@@ -196,7 +203,7 @@ class Clean:
 
     def __init__(self):
         root = build()
-        self.out = {fmt: getattr(root, SER[fmt])() for fmt in SER}
+        self.out = {fmt: method(root, SER[fmt])() for fmt in SER}
         self.dict = copy.deepcopy(self.out["dict"])
         self.nmaps = [(p, dict(m)) for p, m in mappings(self.dict) if m and p]
 
@@ -392,7 +399,7 @@ def probe(rec, clean, root, seqname, after):
     for fmt in SER:
         rec.count("evaluations")
         try:
-            got = getattr(root, SER[fmt])()
+            got = method(root, SER[fmt])()
         except Exception as e:  # noqa: BLE001
             rec.violation(f"C16|aftermath|{SER[fmt]}-raises", case, f"option-less {SER[fmt]}() raised {type(e).__name__}: {str(e)[:150]}")
             continue
